@@ -805,8 +805,8 @@ def gen_mixed_doc(rng, flavour=None):
     them (attr(href)), or several of these: such content is parsed again after the first parse.
     Flavours: 'clean' (the root resets the four observed counters, so that every counter()/target-counter() names a
     counter that exists; no page-based content in ::marker; page counters before target counters) and three that
-    each add one feature with a known defect: 'undefined' (no root reset), 'marker' (page-based / target content in
-    ::marker), 'target-first' (target-counter(.., page) before counter(pages))."""
+    add one feature each: 'undefined' (no root reset: open finding F193), 'marker' (page-based / target content in
+    ::marker: open finding F194), 'target-first' (target-counter(.., page) before counter(pages): fixed F192)."""
     if flavour is None:
         r = rng.random()
         flavour = 'clean' if r < 0.8 else 'undefined' if r < 0.88 else 'marker' if r < 0.95 else 'target-first'
@@ -1022,10 +1022,6 @@ def mixed_stream(run, rng, thorough):
                     tgt = what[len('target-counter(#'):].split(',')[0]
                     if tgt in order and eid in order and order.index(tgt) > order.index(eid):
                         return 'c15:stale-lookup-item-forward-target-page'
-                if d['flavour'] == 'undefined' and what.startswith('counter(page)'):
-                    x = nodes_of(d['root'])[eid].get('extra', {}).get(kind, '')
-                    if 'P' in x and ('C' in x[x.index('P'):] or 'T' in x[x.index('P'):]):
-                        return 'c15:own-page-counters-lost-next-to-target-counters'
                 return None
             by_sig = {}
             for b in page_bad:
@@ -1141,12 +1137,14 @@ def judge_toc(case, o):
             return 'malformed', 'target %s has no box' % tid
         want = fmt_page(case['style'], min(pages))
         if text != want:
-            bad.append((lid, tid, lpage, text, want))
+            bad.append((lid, tid, lpage, text, want, min(pages)))
     if not bad:
         return 'ok', None
+    # entries whose link lies on the same page as its target first: a different mechanism (see toc_stream)
+    bad.sort(key=lambda b: b[2] == b[5])
     if o['loops'] >= o['max_loops']:
-        return 'not-converged', bad[:3]
-    return 'wrong', bad[:3]
+        return 'not-converged', bad[:6]
+    return 'wrong', bad[:6]
 
 
 def toc_stream(run, rng, thorough):
@@ -1168,10 +1166,14 @@ def toc_stream(run, rng, thorough):
         nlinks += len(o['links'])
         loops_hist[o['loops']] = loops_hist.get(o['loops'], 0) + 1
         if res == 'wrong':
-            run.fail('target-counter(page) printed %r for a target on page %s although the layout loop stopped after %d of %d passes'
-                     % (detail[0][3], detail[0][4], o['loops'], o['max_loops']),
+            # a reference that lies on the same page as its target and keeps an earlier page of the target is a
+            # separate (open) finding; any other wrong entry is reported without signature
+            same_page_only = all(b[2] == b[5] for b in detail)
+            run.fail('target-counter(page) printed %r for a target on page %s%s although the layout loop stopped after %d of %d passes'
+                     % (detail[0][3], detail[0][4], ' (reference on the same page as its target)' if same_page_only else '',
+                        o['loops'], o['max_loops']),
                      {'stream': 'toc-renders', 'html': c['html'], 'style': c['style'], 'detail': detail, 'loops': o['loops']},
-                     signature='c15:target-counter-page-wrong')
+                     signature='c15:same-page-reference-stale-page' if same_page_only else 'c15:target-counter-page-wrong')
         elif res == 'malformed':
             run.fail('table of contents document: %s' % detail, {'stream': 'toc-renders', 'html': c['html'], 'style': c['style']},
                      signature='c15:toc-harness')
